@@ -19,11 +19,11 @@ META = {
         'handed to the basis is self.xnorm(x, jump) and the jump flag is true exactly when xjumplo was supplied; C13.FIXED-LAST - in '
         'func_fit the prescribed values are written into the fixed coefficients after the solve as the last write to the result, and '
         'the right-hand side subtracts the basis times inputans masked by the complement of ia; C13.WEIGHTS - normal matrix and '
-        'right-hand side are both formed with invvar itself (not a 0/1 mask); C13.GRID - TraceSet.xy without xpos builds nx = '
+        'right-hand side are both formed with invvar itself (not a 0/1 mask); C13.YFIT-ALL - the basis and the fitted model are evaluated at every abscissa, masked ones included, and the normal matrix is solved as formed; C13.GRID - TraceSet.xy without xpos builds nx = '
         'int(xmax - xmin + 1) positions in unit steps offset by xmin; C13.BASIS-FRESH - func_fit scales the basis array in place, so '
         'every basis function returns a freshly allocated array (no memo decorator, no module-level cache). NOT decided: that the '
         'bases equal the textbook polynomials (delegated to scipy; numerical), least-squares optimality, exact recovery.'),
-    'floors': {'C13.REGISTRY': 3, 'C13.XNORM': 4, 'C13.FIXED-LAST': 3, 'C13.WEIGHTS': 3, 'C13.GRID': 2, 'C13.BASIS-FRESH': 4},
+    'floors': {'C13.REGISTRY': 3, 'C13.XNORM': 4, 'C13.FIXED-LAST': 3, 'C13.WEIGHTS': 3, 'C13.GRID': 2, 'C13.BASIS-FRESH': 4, 'C13.YFIT-ALL': 3},
 }
 
 TRACE = 'pydl/pydlutils/trace.py'
@@ -153,6 +153,29 @@ def check_func_fit(ctx, repo):
               msg='the right-hand side is not weighted by invvar itself', construct='rhs weights')
 
 
+def check_yfit_all(ctx, repo):
+    """The fitted model is evaluated at every abscissa (masked points included) and the normal matrix is used as formed."""
+    f = repo.func(TRACE, 'func_fit')
+    fa = FA(f)
+    basis = [st for st in walk_local(f.node) if isinstance(st, ast.Assign) and src(st.targets[0]) == 'legarr' and isinstance(st.value, ast.Call)]
+    ok = len(basis) == 1 and basis[0].value.args and src(basis[0].value.args[0]) == f.params[0]
+    ctx.check('C13.YFIT-ALL', ok, f, basis[0] if basis else f.node, 'the basis is evaluated at every abscissa x (zero-weight points included)',
+              msg='the basis is evaluated at `%s`, not at all of x: the returned model is then missing at masked points'
+                  % (src(basis[0].value.args[0]) if basis and basis[0].value.args else '?'), construct='basis abscissae')
+    finals = [st for st in walk_local(f.node) if isinstance(st, (ast.Assign, ast.AugAssign)) and any(
+        src(t).startswith('yfit') for t in (st.targets if isinstance(st, ast.Assign) else [st.target])) and 'dot' in src(st.value)]
+    ok = len(finals) == 1 and isinstance(finals[0], ast.Assign) and src(finals[0].targets[0]) == 'yfit' and src(finals[0].value) == 'np.dot(legarr.T, res[0:ncfit])'
+    ctx.check('C13.YFIT-ALL', ok, f, finals[0] if finals else f.node, 'yfit = basis^T . coefficients for all points',
+              msg='the fitted model is stored as `%s`: positions outside that selection keep 0, so evaluating the trace set there no longer returns the '
+                  'fitted values' % (src(finals[0])[:70] if finals else '?'), construct='yfit assignment')
+    al = [st for st in walk_local(f.node) if isinstance(st, ast.Assign) and src(st.targets[0]) == 'alpha']
+    touched = [st for st in walk_local(f.node) if isinstance(st, (ast.Assign, ast.AugAssign)) and st not in al and any(
+        src(t).startswith('alpha[') or (isinstance(st, ast.AugAssign) and src(t) == 'alpha') for t in (st.targets if isinstance(st, ast.Assign) else [st.target]))]
+    ctx.check('C13.YFIT-ALL', not touched, f, touched[0] if touched else (al[0] if al else f.node), 'the normal matrix is solved as formed (no regularisation term)',
+              msg='the normal matrix is modified after it is formed (`%s`): the solution is no longer the weighted least-squares optimum and depends on the '
+                  'absolute scale of the weights' % (src(touched[0])[:70] if touched else ''), construct='alpha modified')
+
+
 def check_grid(ctx, repo):
     f = repo.func(TRACE, 'TraceSet.xy')
     fa = FA(f)
@@ -204,5 +227,6 @@ def run(ctx):
     resolved = check_registry(ctx, ctx.repo)
     check_xnorm(ctx, ctx.repo)
     check_func_fit(ctx, ctx.repo)
+    check_yfit_all(ctx, ctx.repo)
     check_grid(ctx, ctx.repo)
     check_basis_fresh(ctx, ctx.repo, resolved)
